@@ -4,6 +4,11 @@
 // the real broker.ReadProxyProtocol, reads the wrapped connection to EOF, and prints one canonical
 // line per op (same format as lean/Driver/C26.lean).  `conn <seed> <hex>`: result or `err`; `econn <seed> <hex>`: the same, and
 // on a rejection also the bytes the wrapped connection still delivers (`err rest=<hex>`): how much the parser consumed.
+// Connection lifecycles (several connections through ReadProxyProtocol in one process, model: lean/KafVerif/Model/ProxyConns.lean):
+// `sess <seed> <ev>...` one goroutine drives the events a<i>=<hex> (accept: ReadProxyProtocol on a fresh net.Pipe whose peer
+// writes that stream and closes), r<i>=<n> (io.ReadFull of n bytes from the wrapped connection), d<i> (read to EOF), c<i>
+// (wrapped.Close(), may be repeated); `par <seed> <k>:<hex>... / ...` rounds of connections that run at the same time (barriers
+// between ReadProxyProtocol, reading to EOF and the k Close calls).  One output token per event / connection.
 package main
 
 import (
@@ -15,6 +20,7 @@ import (
 	"os"
 	"strconv"
 	"strings"
+	"sync"
 	"time"
 
 	"github.com/KafScale/platform/pkg/broker"
@@ -89,23 +95,285 @@ func doOp(seed uint64, data []byte, errRest bool) (out string) {
 	if rerr != nil {
 		return "err-reading-rest"
 	}
+	return fmtHdr(info, data) + " rest=" + hx(rest)
+}
+
+// fmtHdr: what ReadProxyProtocol reported (without the remainder)
+func fmtHdr(info *broker.ProxyInfo, data []byte) string {
 	switch {
 	case info == nil:
-		return "ok none rest=" + hx(rest)
+		return "ok none"
 	case info.Local:
-		return "ok local rest=" + hx(rest)
+		return "ok local"
 	}
 	v2 := len(data) > 0 && data[0] != 'P'
 	if !v2 {
-		return fmt.Sprintf("ok v1 src=%s dst=%s sp=%d dp=%d sa=%s da=%s rest=%s", canonIP(info.SourceIP, false), canonIP(info.DestIP, false),
-			info.SourcePort, info.DestPort, hx([]byte(info.SourceAddr)), hx([]byte(info.DestAddr)), hx(rest))
+		return fmt.Sprintf("ok v1 src=%s dst=%s sp=%d dp=%d sa=%s da=%s", canonIP(info.SourceIP, false), canonIP(info.DestIP, false),
+			info.SourcePort, info.DestPort, hx([]byte(info.SourceAddr)), hx([]byte(info.DestAddr)))
 	}
 	addr := "ok"
 	if info.SourceAddr != net.JoinHostPort(info.SourceIP, strconv.Itoa(info.SourcePort)) || info.DestAddr != net.JoinHostPort(info.DestIP, strconv.Itoa(info.DestPort)) {
 		addr = "inconsistent"
 	}
-	return fmt.Sprintf("ok v2 src=%s dst=%s sp=%d dp=%d addr=%s rest=%s", canonIP(info.SourceIP, true), canonIP(info.DestIP, true),
-		info.SourcePort, info.DestPort, addr, hx(rest))
+	return fmt.Sprintf("ok v2 src=%s dst=%s sp=%d dp=%d addr=%s", canonIP(info.SourceIP, true), canonIP(info.DestIP, true),
+		info.SourcePort, info.DestPort, addr)
+}
+
+// ---- connection lifecycles ----
+
+type sconn struct {
+	client, server net.Conn
+	wrapped        net.Conn
+	done           chan struct{}
+	closed         bool
+}
+
+func startPeer(seed uint64, data []byte) *sconn {
+	c := &sconn{done: make(chan struct{})}
+	c.client, c.server = net.Pipe()
+	go func() {
+		defer close(c.done)
+		s := seed
+		rest := data
+		for len(rest) > 0 {
+			s = s*6364136223846793005 + 1442695040888963407
+			n := 1 + int((s>>33)%17)
+			if seed == 0 || n > len(rest) {
+				n = len(rest)
+			}
+			if _, err := c.client.Write(rest[:n]); err != nil {
+				return
+			}
+			rest = rest[n:]
+		}
+		c.client.Close()
+	}()
+	_ = c.server.SetReadDeadline(time.Now().Add(3 * time.Second))
+	return c
+}
+
+func (c *sconn) shutdown() {
+	c.client.Close()
+	c.server.Close()
+	select {
+	case <-c.done:
+	case <-time.After(3 * time.Second):
+	}
+}
+
+func commas(s string) string { return strings.ReplaceAll(s, " ", ",") }
+
+func acceptHdr(c *sconn, data []byte) (out string) {
+	defer func() {
+		if r := recover(); r != nil {
+			out = "panic"
+		}
+	}()
+	wrapped, info, err := broker.ReadProxyProtocol(c.server)
+	c.wrapped = wrapped
+	if err != nil {
+		return "err"
+	}
+	return commas(fmtHdr(info, data))
+}
+
+func readSome(c *sconn, n int) (out string) {
+	defer func() {
+		if r := recover(); r != nil {
+			out = "panic"
+		}
+	}()
+	if c.wrapped == nil {
+		return "nil-conn"
+	}
+	if n < 0 {
+		b, _ := io.ReadAll(c.wrapped)
+		return hx(b)
+	}
+	buf := make([]byte, n)
+	m, _ := io.ReadFull(c.wrapped, buf)
+	return hx(buf[:m])
+}
+
+func closeWrapped(c *sconn) (out string) {
+	defer func() {
+		if r := recover(); r != nil {
+			out = "panic"
+		}
+	}()
+	if c.wrapped != nil {
+		_ = c.wrapped.Close()
+	} else {
+		_ = c.server.Close()
+	}
+	return ""
+}
+
+func splitID(t string) (id int, arg string, ok bool) {
+	body := t[1:]
+	if k := strings.IndexByte(body, '='); k >= 0 {
+		body, arg = body[:k], body[k+1:]
+	}
+	id, err := strconv.Atoi(body)
+	return id, arg, err == nil
+}
+
+func doSess(seed uint64, toks []string) string {
+	conns := map[int]*sconn{}
+	defer func() {
+		for _, c := range conns {
+			c.shutdown()
+		}
+	}()
+	var outs []string
+	for _, t := range toks {
+		if len(t) < 2 {
+			return "bad-op"
+		}
+		id, arg, ok := splitID(t)
+		if !ok {
+			return "bad-op"
+		}
+		c := conns[id]
+		switch t[0] {
+		case 'a':
+			var data []byte
+			if arg != "-" {
+				var err error
+				if data, err = hex.DecodeString(arg); err != nil {
+					return "bad-op"
+				}
+			}
+			if c != nil {
+				outs = append(outs, fmt.Sprintf("bad%d", id))
+				continue
+			}
+			s := seed
+			if s != 0 {
+				s += uint64(id) * 7919
+			}
+			c = startPeer(s, data)
+			conns[id] = c
+			outs = append(outs, fmt.Sprintf("a%d:%s", id, acceptHdr(c, data)))
+		case 'r', 'd':
+			if c == nil || c.closed {
+				outs = append(outs, fmt.Sprintf("bad%d", id))
+				continue
+			}
+			n := -1
+			if t[0] == 'r' {
+				var err error
+				if n, err = strconv.Atoi(arg); err != nil || n < 0 {
+					return "bad-op"
+				}
+			}
+			outs = append(outs, fmt.Sprintf("r%d:%s", id, readSome(c, n)))
+		case 'c':
+			if c == nil {
+				outs = append(outs, fmt.Sprintf("bad%d", id))
+				continue
+			}
+			c.closed = true
+			outs = append(outs, fmt.Sprintf("c%d%s", id, closeWrapped(c)))
+		default:
+			return "bad-op"
+		}
+	}
+	return strings.Join(outs, " ")
+}
+
+func doParRound(seed uint64, specs []string) ([]string, bool) {
+	type one struct {
+		k    int
+		data []byte
+	}
+	var cs []one
+	for _, sp := range specs {
+		f := strings.SplitN(sp, ":", 2)
+		if len(f) != 2 {
+			return nil, false
+		}
+		k, err := strconv.Atoi(f[0])
+		if err != nil || k < 0 || k > 8 {
+			return nil, false
+		}
+		var data []byte
+		if f[1] != "-" {
+			if data, err = hex.DecodeString(f[1]); err != nil {
+				return nil, false
+			}
+		}
+		cs = append(cs, one{k, data})
+	}
+	n := len(cs)
+	res := make([]string, n)
+	var b0, b1, b2, fin sync.WaitGroup
+	b0.Add(n)
+	b1.Add(n)
+	b2.Add(n)
+	fin.Add(n)
+	for i := range cs {
+		go func(i int) {
+			defer fin.Done()
+			s := seed
+			if s != 0 {
+				s += uint64(i) * 104729
+			}
+			c := startPeer(s, cs[i].data)
+			defer c.shutdown()
+			b0.Done()
+			b0.Wait()
+			h := acceptHdr(c, cs[i].data)
+			b1.Done()
+			b1.Wait()
+			rest := readSome(c, -1)
+			b2.Done()
+			b2.Wait()
+			extra := ""
+			for j := 0; j < cs[i].k; j++ {
+				extra += closeWrapped(c)
+			}
+			if h == "err" {
+				// like econn: what the wrapped connection still delivers after a rejection
+				res[i] = "err,rest=" + rest + extra
+			} else {
+				res[i] = h + ",rest=" + rest + extra
+			}
+		}(i)
+	}
+	fin.Wait()
+	return res, true
+}
+
+func doPar(seed uint64, toks []string) string {
+	var outs []string
+	var round []string
+	flush := func() bool {
+		if len(round) == 0 {
+			return true
+		}
+		r, ok := doParRound(seed, round)
+		if !ok {
+			return false
+		}
+		outs = append(outs, r...)
+		round = nil
+		return true
+	}
+	for _, t := range toks {
+		if t == "/" {
+			if !flush() {
+				return "bad-op"
+			}
+			outs = append(outs, "/")
+			continue
+		}
+		round = append(round, t)
+	}
+	if !flush() {
+		return "bad-op"
+	}
+	return strings.Join(outs, " ")
 }
 
 func main() {
@@ -116,6 +384,16 @@ func main() {
 	for sc.Scan() {
 		f := strings.Fields(sc.Text())
 		if len(f) == 0 || strings.HasPrefix(f[0], "#") {
+			continue
+		}
+		if (f[0] == "sess" || f[0] == "par") && len(f) >= 2 {
+			seed, _ := strconv.ParseUint(f[1], 10, 64)
+			if f[0] == "sess" {
+				fmt.Fprintln(w, doSess(seed, f[2:]))
+			} else {
+				fmt.Fprintln(w, doPar(seed, f[2:]))
+			}
+			w.Flush()
 			continue
 		}
 		if (f[0] != "conn" && f[0] != "econn") || len(f) < 2 || len(f) > 3 {
